@@ -1,4 +1,4 @@
-import PtnModel.Proofs.EvoRevExample
+import PtnModel.Proofs.EvoRevExample2
 /-!
 # C09 (reversibility over complete sweeps and time steps) — single-site TDVP is exactly time reversible
 
@@ -45,10 +45,15 @@ contracts (QR, norm, `eigh_tridiagonal`), `H` shaped and Hermitian.
 Proved: reversibility of the sweeps from a sweep state in canonical form — half sweep, one time step, `numsteps` time
 steps (for every complex `dt`, every Hermitian MPO, every number of Lanczos iterations, every bond dimension subject to the
 regularity above), including the start of the second run from a state that is only gauge equivalent to the end of the
-first; on the level of the two calls of `integrate_local_singlesite`: `tdvp1_calls_reversible_partial`, which still assumes
-that the prologue of the second call (re-orthonormalisation of an already right-canonical state, new environment blocks)
-is a pure gauge change (`hpro`; for a normalised state — purely imaginary `dt` — this is QR uniqueness applied site by
-site; for other `dt` the prologue also rescales the state by the reported norm and the homogeneity of the sweeps is needed).
+first.  On the level of the two calls of `integrate_local_singlesite`:
+* `tdvp1_calls_reversible` — **purely imaginary `dt`** (real-time evolution, the case in which the second call reports the
+  norm one): the call with `-dt` on the result of the call with `dt` returns the normalised initial state and `nrm2 = 1`.  The
+  prologue of the second call (right-orthonormalisation of the already right-canonical, normalised result, new environment
+  blocks) is shown to be a pure gauge change (`Evo.prologue_gauge`: QR uniqueness site by site), under the regularity
+  `OrthoRightRegular` of its QR steps (they keep the bond dimensions).
+* `tdvp1_calls_reversible_partial` — arbitrary complex `dt`, still assuming that the prologue of the second call is a gauge
+  change (`hpro`).  For `dt` that is not purely imaginary the second prologue divides the state by the reported norm `nrm2`;
+  the statement `nrm2 · ψ2 = ψ0` additionally needs the homogeneity of the sweeps under positive rescaling — not proved.
 Also: totality of the reversed call (`tdvp1_reverse_total`) and the sweep invariant for arbitrary complex `dt`
 (`tdvp1_step_canonical`).
 -/
@@ -175,10 +180,10 @@ every amplitude of `ψ2` is the amplitude of `ψ0`, the right-orthonormalised (n
 (`orthonormalize(ψ, 'right') = (ψ0, nrm1)`), **provided** (`hpro`) the prologue of the second call — right-orthonormalisation
 of the already right-canonical state `ψ1` and recomputation of the right blocks — returns a sweep state gauge equivalent to
 the final sweep state `b` of the first call.
-What is missing (`_partial`): `hpro` itself.  For a normalised `ψ1` (purely imaginary `dt`, where `nrm2 = 1`) it is the QR
-uniqueness `qr_gauge_unique` applied site by site along `orthonormalize` (under the same regularity of its QR steps); for
-other `dt` the prologue in addition divides the state by `nrm2`, and the statement becomes `nrm2 · ψ2 = ψ0`, which needs the
-homogeneity of all sub-steps under a positive rescaling of the centre tensor. -/
+What is missing (`_partial`): `hpro` itself for `dt` that is not purely imaginary.  For purely imaginary `dt` it is proved
+(`prologue_is_gauge`, giving `tdvp1_calls_reversible`); for other `dt` the prologue in addition divides the state by `nrm2`,
+and the statement becomes `nrm2 · ψ2 = ψ0`, which needs the homogeneity of all sub-steps under a positive rescaling of the
+centre tensor. -/
 theorem tdvp1_calls_reversible_partial {ψ ψ1 ψ2 : MPS 𝕜} (ctx : SweepCtx k H ψ.qd numiter) (hadm : Admissible ψ) {dt : 𝕜}
     {numsteps : Nat} {nrm1 nrm2 : ℝ}
     (h1 : integrateLocalSinglesite k H ψ dt numsteps numiter = .ok (ψ1, nrm1))
@@ -192,6 +197,42 @@ theorem tdvp1_calls_reversible_partial {ψ ψ1 ψ2 : MPS 𝕜} (ctx : SweepCtx k
     ∃ ψ0, MPS.orthonormalize (ρ := ℝ) k.dqr ψ false = .ok (ψ0, nrm1) ∧
       ∀ σ, σ ∈ digitsU ψ.qd.length H.A.length → ψ2.amp σ = ψ0.amp σ :=
   tdvp1_calls_gauge ctx hadm h1 h2 hex1 hex2 hpro hexp
+
+/-- **Two calls of `integrate_local_singlesite`, purely imaginary time step: exact time reversibility.**  `ψ` admissible, `H`
+a well-formed (block-sparse), shaped, dense-Hermitian MPO compatible with `ψ`; `dt = iτ`; the call
+`integrate_local_singlesite(H, ψ, dt, numsteps, numiter)` returns `(ψ1, nrm1)` and the call
+`integrate_local_singlesite(H, ψ1, -dt, numsteps, numiter)` returns `(ψ2, nrm2)`.  Hypotheses: kernel contracts (`SweepCtx`),
+`|E(ix)| = 1`, `half` real, `E(a) E(-a) = 1`; every executed sub-step of the sweeps of both calls is exact and regular
+(`hex1`, `hex2`: `RunExact` from the respective prologue states — exhausted Lanczos runs, QR steps keep the bond dimensions,
+and for the second call full-rank triangular factors); the QR steps of the right-orthonormalisation at the start of the
+second call keep the bond dimensions (`OrthoRightRegular`).  Then **the second call reports the norm one and returns the
+normalised initial state**: `nrm2 = 1` and every amplitude of `ψ2` equals that of `ψ0`, where
+`orthonormalize(ψ, 'right') = (ψ0, nrm1)` — for every Hermitian MPO, every number of sites, time steps and Lanczos
+iterations, every bond profile (subject to the regularity). -/
+theorem tdvp1_calls_reversible {ψ ψ1 ψ2 : MPS 𝕜} (ctx : SweepCtx k H ψ.qd numiter)
+    (hexpI : ∀ x : ℝ, ‖k.dexp (RCLike.I * (x : 𝕜))‖ = 1) {hh τ : ℝ} (hhalf : k.half = ((hh : ℝ) : 𝕜)) {dt : 𝕜}
+    (hdt : dt = RCLike.I * ((τ : ℝ) : 𝕜)) (hHwf : H.wellFormed = true) (hc : C02.EvoCompat H ψ) (hadm : Admissible ψ)
+    {numsteps : Nat} {nrm1 nrm2 : ℝ}
+    (h1 : integrateLocalSinglesite k H ψ dt numsteps numiter = .ok (ψ1, nrm1))
+    (h2 : integrateLocalSinglesite k H ψ1 (-dt) numsteps numiter = .ok (ψ2, nrm2))
+    (hex1 : ∀ s0, prologue k H ψ = .ok (s0, nrm1) → RunExact false k H ψ.qd dt numiter numsteps s0)
+    (hex2 : ∀ t0, prologue k H ψ1 = .ok (t0, nrm2) → RunExact true k H ψ.qd (-dt) numiter numsteps t0)
+    (hreg : OrthoRightRegular k.dqr ψ1)
+    (hexp : ∀ (a : 𝕜) (x : ℝ), k.dexp (a * (x : 𝕜)) * k.dexp (-a * (x : 𝕜)) = 1) :
+    nrm2 = 1 ∧ ∃ ψ0, MPS.orthonormalize (ρ := ℝ) k.dqr ψ false = .ok (ψ0, nrm1) ∧
+      ∀ σ, σ ∈ digitsU ψ.qd.length H.A.length → ψ2.amp σ = ψ0.amp σ :=
+  tdvp1_calls_reversible_imag ctx hexpI hhalf hdt hHwf hc hadm h1 h2 hex1 hex2 hreg hexp
+
+/-- **The prologue of a call on an already right-canonical, normalised state is a pure gauge change.**  `b` is a sweep state
+in canonical form with centre `0` and norm one, `toMPS ψ b` the state written back from it (admissible); the prologue
+(`orthonormalize(mode='right')`, right environment blocks) applied to it returns `(t0, nrm2)`; the QR steps of the
+orthonormalisation keep the bond dimensions (`OrthoRightRegular`).  Then `t0` is gauge equivalent to `b` (unitaries on the
+bonds, identity on the boundary bonds — the sign fix of `orthonormalize` absorbs the last factor) and `nrm2 = 1`. -/
+theorem prologue_is_gauge (ctx : SweepCtx k H qd numiter) {ψ : MPS 𝕜} (hqd : ψ.qd = qd) {b t0 : Sweep 𝕜}
+    (hb : Canon H qd b 0) (hadm : Admissible (toMPS ψ b)) {nrm2 : ℝ}
+    (hp : prologue k H (toMPS ψ b) = .ok (t0, nrm2)) (hreg : OrthoRightRegular k.dqr (toMPS ψ b))
+    (hnorm : normSq (cur qd b) qd.length = 1) : GaugeEq H qd b t0 0 ∧ nrm2 = 1 :=
+  ⟨prologue_gauge ctx hqd hb hadm hp hreg hnorm, prologue_gauge_norm ctx hqd hb hadm hp hreg hnorm⟩
 
 /-- **Totality of the reversed call** (`tdvp1_reverse_total`).  Under the hypotheses of `C08.tdvp1_total` (kernel contracts,
 block-sparse Hermitian MPO compatible with the admissible state, trailing MPO bond charge zero, `numiter ≥ 1`): the state
@@ -209,10 +250,14 @@ theorem tdvp1_reverse_total {ψ ψ1 : MPS 𝕜} (ctx : SweepCtx k H ψ.qd numite
 
 /-! ## non-vacuity
 
-Kernels `exK` over `ℂ` (QR kernel `realQR`, 2-norm, eigen-decomposition of `1 × 1` matrices, `dexp ≡ 1`, one Lanczos
-iteration), Hermitian two-site MPO `exOC = Z ⊗ 1 + 1 ⊗ Z`, admissible state `exψC = |01⟩ + i|10⟩`, `dt = i`.  As in
-`Props/C09.lean` / `C09Rev.lean`, joint satisfiability of successful runs with `C15.Exhausted` is exhibited on the vector
-level (`krylov_cancel_gauge`); all other hypotheses are exhibited for actual runs. -/
+Two witnesses.  (1) A complete one: the one-site system `exH1 = 2·𝟙`, `exψ1 = (1, i)`, kernels `exK1` (`dexp = Complex.exp`),
+one Lanczos iteration, `dt = iτ`: ALL hypotheses of `tdvp1_steps_reversible` and of `tdvp1_calls_reversible`, including the
+exactness predicates, hold for actual runs (`Proofs/EvoRevExample1.lean`, `EvoRevExample2.lean`); for one site no QR sub-step
+occurs inside a time step.  (2) A two-site one with genuine sweeps: kernels `exK` over `ℂ` (QR kernel `realQR`, 2-norm,
+eigen-decomposition of `1 × 1` matrices, `dexp ≡ 1`, one Lanczos iteration), Hermitian MPO `exOC = Z ⊗ 1 + 1 ⊗ Z`, admissible
+state `exψC = |01⟩ + i|10⟩`, `dt = i`: all hypotheses other than the exactness predicates are exhibited for actual runs (as in
+`Props/C09.lean` / `C09Rev.lean`, where joint satisfiability of successful runs with `C15.Exhausted` is exhibited on the
+vector level). -/
 
 /-- hypotheses of `tdvp1_step_reversible` / `tdvp1_steps_reversible` / `tdvp1_calls_reversible_partial` other than the
 exactness predicates, for actual runs: both calls return (every number of steps), the prologue state `s0` and the final
@@ -229,9 +274,33 @@ example (n : Nat) : ∃ (ψ1 ψ2 : MPS ℂ) (nrm1 nrm2 : ℝ) (s0 b : Sweep ℂ)
   obtain ⟨ψ1, ψ2, nrm1, nrm2, s0, b, h1, h2, hp, hc0, hit, hcb, _, hg, _⟩ := exRev_calls n
   exact ⟨ψ1, ψ2, nrm1, nrm2, s0, b, exK_ctx, exψC_adm, h1, h2, hp, hc0, hit, hcb, hg, exRev_exp⟩
 
-/-- the exactness predicates are about executed sub-steps only: for zero time steps `RunExact` holds trivially, and the
-theorem then says that a state is gauge equivalent to itself -/
-example (s : Sweep ℂ) : RunExact true exK exOC exψC.qd Complex.I 1 0 s := trivial
+/-- **ALL hypotheses of `tdvp1_steps_reversible` — including both exactness predicates — hold jointly for actual runs**: the
+one-site system `H = 2·𝟙` (`exH1`), `ψ = (1, i)` (`exψ1`), kernels `exK1` (`exK` with `dexp = Complex.exp`), one Lanczos
+iteration, `dt = iτ` for every real `τ`, every number of time steps (for one site a time step is the step at the last site,
+so `StepExact` reduces to `MidExact`; every tensor is an eigenvector of the effective operator `2·𝟙`) -/
+example (n : Nat) (τ : ℝ) : ∃ (s0 b e : Sweep ℂ) (nrm : ℝ),
+    SweepCtx exK1 exH1 exψ1.qd 1 ∧ prologue exK1 exH1 exψ1 = .ok (s0, nrm) ∧ Canon exH1 exψ1.qd s0 0 ∧
+    iterate (tdvp1Step exK1 exH1 exψ1.qd (Complex.I * τ) 1) n s0 = .ok b ∧
+    iterate (tdvp1Step exK1 exH1 exψ1.qd (-(Complex.I * τ)) 1) n b = .ok e ∧
+    RunExact false exK1 exH1 exψ1.qd (Complex.I * τ) 1 n s0 ∧
+    RunExact true exK1 exH1 exψ1.qd (-(Complex.I * τ)) 1 n b ∧
+    GaugeEq exH1 exψ1.qd b b 0 ∧
+    (∀ (a : ℂ) (x : ℝ), exK1.dexp (a * (x : ℂ)) * exK1.dexp (-a * (x : ℂ)) = 1) :=
+  exRev1_full n τ
+
+/-- **ALL hypotheses of `tdvp1_calls_reversible` hold jointly** for the same one-site system: both calls return, the
+exactness predicates hold from both prologue states, the re-orthonormalisation is regular -/
+example (n : Nat) (τ : ℝ) : ∃ (ψ1 ψ2 : MPS ℂ) (nrm1 nrm2 : ℝ),
+    SweepCtx exK1 exH1 exψ1.qd 1 ∧ (∀ x : ℝ, ‖exK1.dexp (RCLike.I * (x : ℂ))‖ = 1) ∧
+    exK1.half = (((1 / 2 : ℝ) : ℝ) : ℂ) ∧ exH1.wellFormed = true ∧ C02.EvoCompat exH1 exψ1 ∧ Admissible exψ1 ∧
+    integrateLocalSinglesite exK1 exH1 exψ1 (Complex.I * τ) n 1 = .ok (ψ1, nrm1) ∧
+    integrateLocalSinglesite exK1 exH1 ψ1 (-(Complex.I * τ)) n 1 = .ok (ψ2, nrm2) ∧
+    (∀ s0, prologue exK1 exH1 exψ1 = .ok (s0, nrm1) → RunExact false exK1 exH1 exψ1.qd (Complex.I * τ) 1 n s0) ∧
+    (∀ t0, prologue exK1 exH1 ψ1 = .ok (t0, nrm2) → RunExact true exK1 exH1 exψ1.qd (-(Complex.I * τ)) 1 n t0) ∧
+    OrthoRightRegular exK1.dqr ψ1 ∧
+    (∀ (a : ℂ) (x : ℝ), exK1.dexp (a * (x : ℂ)) * exK1.dexp (-a * (x : ℂ)) = 1) := by
+  obtain ⟨ψ1, ψ2, nrm1, nrm2, h1, h2, hex1, hex2, hreg⟩ := exRev1_calls n τ
+  exact ⟨ψ1, ψ2, nrm1, nrm2, exK1_ctx, exK1_exp, rfl, exH1_wf, exCompat1, exψ1_adm, h1, h2, hex1, hex2, hreg, exRev1_exp⟩
 
 /-- hypotheses of `tdvp1_reverse_total` (those of `C08.tdvp1_total` plus a returned first call), and its conclusion for an
 actual run -/
